@@ -322,6 +322,14 @@ func (e *endpointManager) checkStatus() {
 
 func (e *endpointManager) addAliveEp(ep endpoint.Endpoint) {
 	e.epLock.Lock()
+	// ep comes from the adapter, which remembers the endpoint as the registry described it when the
+	// adapter was created; weight and weight type are those of the current registry answer
+	for _, epf := range e.activeEpf {
+		if cur := endpoint.Tars2endpoint(epf); cur.Key == ep.Key {
+			ep = cur
+			break
+		}
+	}
 	sortedEps := e.activeEp[:]
 	sortedEps = append(sortedEps, ep)
 	sort.Slice(sortedEps, func(i int, j int) bool {
